@@ -79,6 +79,39 @@ Definition canary_svc_delete_safe (before : net) (s : tstep) : bool :=
     match n_route before with RNone => true | RSet _ => existsb (String.eqb "delete Ingress web-canary") (ts_writes s) end
   else true.
 
+(* the observed API calls replayed on the network state (the strategy a route write carries does not matter here) *)
+Definition replay_name (n : net) (w : string) : net :=
+  if String.eqb w "delete Ingress web-canary" then apply_write n WDeleteRoute
+  else if is_route_write w then apply_write n (WRoute init_strategy)
+  else if String.eqb w "delete Service svc-canary" then apply_write n WDeleteCanarySvc
+  else if String.eqb w "create Service svc-canary" || String.eqb w "patch Service svc-canary" then apply_write n (WCreateCanarySvc "")
+  else n.
+Definition route_behind_service_b (n : net) : bool :=
+  match n_route n with RNone => true | RSet _ => match n_canary_svc n with Some _ => true | None => false end end.
+(* C04 at every write: starting from a state where no route points at a missing canary Service, no prefix of the observed
+   writes produces one *)
+Fixpoint prefixes_safe (n : net) (ws : list string) : bool :=
+  match ws with [] => true | w :: t => let n' := replay_name n w in route_behind_service_b n' && prefixes_safe n' t end.
+Definition writes_never_route_into_void (n : net) (ws : list string) : bool :=
+  if route_behind_service_b n then prefixes_safe n ws else true.
+
+(* C06: after a call that withdrew the route (and asked to wait), the canary Service is not deleted before time has passed
+   or the process restarted -- in particular not because some call in between failed *)
+Fixpoint service_waits_for_route (zero_grace : bool) (recent : bool) (ops : list top) (obs : list tstep) : bool :=
+  match ops, obs with
+  | o :: ops', s :: obs' =>
+    match o with
+    | TTick | TCrash => service_waits_for_route zero_grace false ops' obs'
+    | TCall k c =>
+      let deleted_route := existsb (String.eqb "delete Ingress web-canary") (ts_writes s) in
+      let deleted_svc := existsb (String.eqb "delete Service svc-canary") (ts_writes s) in
+      (* FinalisingTrafficRouting sequences the two itself; direct RemoveCanaryService calls are sequenced by the caller *)
+      (match k with KFinalising => tc_zero_grace c || negb (recent && deleted_svc) | _ => true end) &&
+      service_waits_for_route zero_grace ((recent || deleted_route) && negb (tc_zero_grace c)) ops' obs'
+    end
+  | _, _ => true
+  end.
+
 Fixpoint clauses (n : net) (ops : list top) (obs : list tstep) : bool * bool * bool :=
   match ops, obs with
   | o :: ops', s :: obs' =>
@@ -86,7 +119,9 @@ Fixpoint clauses (n : net) (ops : list top) (obs : list tstep) : bool * bool * b
       match o with
       | TCall k c =>
         ((match k with KDo => if ts_ok s && negb (ts_err s) then routed_exactly c (ts_net s) else true | _ => true end),
-         route_write_safe n c k s,
+         route_write_safe n c k s &&
+         (* RouteAllTrafficToNewVersion and RemoveCanaryService rely on their callers' ordering; the others are safe from any state *)
+         (match k with KRouteNew | KRemoveCanary => true | _ => writes_never_route_into_void n (ts_writes s) end),
          (match k with KFinalising | KRemoveCanary => true | _ => negb (existsb (String.eqb "delete Service svc-canary") (ts_writes s)) end))
       | _ => (true, true, true)
       end in
@@ -99,7 +134,8 @@ Definition judge (c : case) : list verdict :=
   [ if corresponds (tc_net c) [] (tc_ops c) (tc_steps c) then VOk else VMismatch;
     clause "C03_routed_means_exact" a;
     clause "C04_route_written_only_behind_canary_service" b;
-    clause "C04_canary_service_removed_only_by_its_operation" d ].
+    clause "C04_canary_service_removed_only_by_its_operation" d;
+    clause "C06_failed_call_does_not_skip_the_wait" (service_waits_for_route false false (tc_ops c) (tc_steps c)) ].
 
 Definition tag (c : case) : string :=
   let n := count (fun s => negb (match ts_writes s with [] => true | _ => false end)) (tc_steps c) in
